@@ -273,9 +273,11 @@ func TestReplayConn(t *testing.T) {
 					return map[string]any{"kind": "conn-path", "group": connGroup{MaxIn: g.MaxIn, Conns: g.Conns, Paths: [][]connStep{p[:upto]}}}
 				}
 				if capx != "" {
+					res.Count("cap_exceeded_paths", 1)
 					res.Mismatch("replay:conn:inbound-cap-exceeded", fmt.Sprintf("path %d %s", pi, capx), rep(len(p)))
 				}
 				if stuck != "" {
+					res.Count("close_blocked_paths", 1)
 					res.Mismatch("replay:conn:close-blocked-by-unswept-peer", fmt.Sprintf("path %d %s", pi, stuck), rep(len(p)))
 				}
 				if sig != "" {
